@@ -154,3 +154,69 @@ def escape_reset(rep, f, c, rule):
         rep.ob(rule + '.escape-reset', name, bad is None and k >= 1,
                'ISO-2022-JP: %s' % (bad[0] if bad else 'no path leaving the Escape state by recognition was found'), bad[1] if bad else site, {'paths': k}, c)
     return n
+
+
+def pending_bmp(rep, f, c, rule):
+    """UTF-16 decoder: `pending_bmp == true` means that lead_surrogate holds a BMP unit that the next call writes out verbatim
+    (write_bmp, no test).  So on every path that sets the flag, the unit stored into lead_surrogate on that path must have been
+    shown, by the conditions of that path, not to be a surrogate (C05: no surrogate ever reaches a writer).  The set of units the
+    path admits is computed exactly from its conditions on the stored value (R-RANGE)."""
+    import scan
+    from ranges import ISet, _mk, leaves
+    X = ('loc', 999999)
+    SUR = ISet.of((0xD800, 0xDFFF))
+
+    def subst(e, v):
+        if e == v:
+            return X
+        return tuple(subst(x, v) if isinstance(x, tuple) else x for x in e) if isinstance(e, tuple) else e
+    n = 0
+    for name, b in sorted(f.bodies.items()):
+        if b.raw.get('impl_self') != 'utf_16::Utf16Decoder' or not name.endswith(('::decode_to_utf8_raw', '::decode_to_utf16_raw')):
+            continue
+        site = sp_str(b.raw['span'])
+        heads = loop_heads(b)
+        try:
+            ps = [summarize(b, blks, end) for blks, end in enumerate_block_paths(b, 0, stop=heads, limit=60000)]
+            for H in heads:
+                ps += [summarize(b, blks, end) for blks, end in enumerate_block_paths(b, H, stop=[h for h in heads if h != H], limit=60000)]
+        except OverflowError as e:
+            rep.undecidable(rule, name, str(e), site, c)
+            continue
+        bad = None
+        k = 0
+        res = Resolver(b)
+        for p in ps:
+            if p.end[0] == 'diverge':
+                continue
+            fp = final_value(p, 'pending_bmp')
+            if fp is None or not (fp[0] == 'c' and fp[1] == 1):
+                continue
+            k += 1
+            V = final_value(p, 'lead_surrogate')
+            at = sp_str(b.blocks[p.blocks[-1]]['tsp'])
+            if V is None:
+                bad = ('pending_bmp is set although lead_surrogate is not assigned on this path', at)
+                break
+            dom = ISet.of((0, 0xFFFF))
+            for ev in p.events:
+                if ev[0] != 'cond' or not isinstance(ev[2], bool):
+                    continue
+                e = subst(scan.unwrap_ident(ev[1]), V)
+                if not isinstance(e, tuple) or not e or e[0] == 'c':
+                    continue
+                ls = set(leaves(e))
+                if ls != {X}:
+                    continue
+                ts, fs, us = _mk(f, b, res, X, 16, 0x10000).ev(e).truth_set()
+                if us:
+                    continue
+                dom = dom & (ts if ev[2] else fs)
+            if dom & SUR:
+                bad = ('pending_bmp is set with lead_surrogate := %s, which the conditions of this path allow to be a surrogate %r; the next call would write it out as a BMP character'
+                       % (expr_str(V, b)[:50], dom & SUR), at)
+                break
+        n += k
+        rep.ob(rule + '.pending-bmp', name, bad is None and k >= 1, 'UTF-16 decoder: %s' % (bad[0] if bad else 'no path setting pending_bmp found'),
+               bad[1] if bad else site, {'paths': k}, c)
+    return n
